@@ -4263,4 +4263,72 @@ theorem C07_planted_document_alias_errors (env : Env) (pre post : List SegX) (tm
           ⟨tB, c07v_compSpec msS nameS QS tB (c07v_enAliasCwF env.cs i T tpre)⟩)) :=
   c07v_alias_pieceAt env.cs env.ext tmS msS nameS tobS QS tcbS _ T tpre tB tpost i hs hQ he hi hT hsB hpost hrun
 
+/-! non-vacuity.  (a) the document `>> source: grandma` / blank / `Use @{} now` (every extension off): all hypotheses of
+    `C07_planted_document` decided, `hB` from the first clause of `C07_planted_document_empty_name_family`; the
+    evaluated report is exactly `empty-name:ingredient` ⟨25,25⟩, no output.  (b) `Use @&&x{} now`, `Use #@&&x{} now`
+    under COMPONENT_MODIFIERS, (c) `Use @a|b|c{} now` under COMPONENT_ALIAS, (d) `Use @{1/0} now` (the reading of
+    `C07_zero_denominator_reading`: `empty-name:ingredient` FIRST, then `division-by-zero`): instances applied to the
+    specification tokens, reports evaluated. -/
+def C07_vB1 : List Tok := c07p_comp (tk .at ['@']) [] [] (tk .openBrace ['{']) [] (tk .closeBrace ['}'])
+def C07_vSpec1 : List Tok → List Tok → List Tok → List (Ev Rat) → Prop :=
+  fun T tpre tB => c07v_compSpec [] [] [] tB (c07v_emptyNameIngrF T tpre)
+def C07_vDoc1 : List (PlBlock Rat × List Tok) :=
+  plantedDoc toyCharSpec C07_dDocA [] C07_plPre' C07_plPost C07_vB1 [C01_nl] C07_vSpec1
+example : render ([] ++ plDocSpec C07_vDoc1) = ">> source: grandma\n\nUse @{} now\n".toList := by decide
+example : ∃ (T tpre tB tpost : List Tok) (evsB : List (Ev Rat)),
+    T <:+: lex toyCharSpec (render ([] ++ plDocSpec C07_vDoc1)) ∧ T = tpre ++ (tB ++ tpost) ∧
+    Spells tB C07_vB1 ∧ C07_vSpec1 T tpre tB evsB ∧
+    (parseRecipe (α := Rat) C07_coreEnv (render ([] ++ plDocSpec C07_vDoc1))).diags.toList.filter
+      (fun d => d.stage == .parse) = evDiags evsB := by
+  obtain ⟨T, tpre, tB, tpost, evsB, h1, h2, -, h4, -, h6, h7, -⟩ :=
+    C07_planted_document (α := Rat) C07_coreEnv [] C07_dDocA [] C07_plPre' C07_plPost C07_vB1 [C01_nl] C07_vSpec1
+      (by decide) (by decide) (by intro d h; cases h) (by decide)
+      (((C07_planted_document_empty_name_family (α := Rat) C07_coreEnv C07_plPre' C07_plPost (tk .at ['@']) []
+        (tk .openBrace ['{']) [] (tk .closeBrace ['}']) (Or.inl rfl) rfl).1 (by intro t h; cases h)).1
+        ⟨rfl, Or.inl ⟨rfl, rfl⟩, by decide, rfl, by decide, rfl,
+          by intro t h; simp [C07_plPost, SegX.spell] at h; subst h; decide⟩)
+      (by decide) (by decide) (by decide)
+  exact ⟨T, tpre, tB, tpost, evsB, h1, h2, h4, h6, h7⟩
+example : ((parseRecipe (α := Rat) C07_coreEnv (render ([] ++ plDocSpec C07_vDoc1))).diags.toList,
+      (parseRecipe (α := Rat) C07_coreEnv (render ([] ++ plDocSpec C07_vDoc1))).output.isSome) =
+    ([⟨.error, .parse, "empty-name:ingredient", [⟨25, 25⟩]⟩], false) := by decide +kernel
+def C07_vEnvM : Env := { C07_coreEnv with ext := ⟨Gen.EXT_COMPONENT_MODIFIERS⟩ }
+def C07_vEnvA : Env := { C07_coreEnv with ext := ⟨Gen.EXT_COMPONENT_ALIAS⟩ }
+example := (C07_planted_document_modifiers (α := Rat) C07_vEnvM C07_plPre' C07_plPost (tk .at ['@'])
+    [tk .and ['&'], tk .and ['&']] C07_xName (tk .openBrace ['{']) [] (tk .closeBrace ['}'])
+    (by intro t h; simp at h; subst h; decide) (by intro t h; cases h) (Or.inl rfl) C07_xNameNB).1
+    ⟨rfl, Or.inr ⟨rfl, by intro t h; simp at h; subst h; decide, by intro x h; simp [C07_xName] at h; subst h; decide⟩,
+      by decide, rfl, by decide, rfl, by intro t h; simp [C07_plPost, SegX.spell] at h; subst h; decide⟩
+example := (C07_planted_document_modifiers (α := Rat) C07_vEnvM C07_plPre' C07_plPost (tk .hash ['#'])
+    [tk .at ['@'], tk .and ['&'], tk .and ['&']] C07_xName (tk .openBrace ['{']) [] (tk .closeBrace ['}'])
+    (by intro t h; simp at h; rcases h with rfl | rfl <;> decide) (by intro t h; cases h) (Or.inl rfl) C07_xNameNB).2
+    ⟨rfl, Or.inr ⟨rfl, by intro t h; simp at h; rcases h with rfl | rfl <;> decide,
+        by intro x h; simp [C07_xName] at h; subst h; decide⟩,
+      by decide, rfl, by decide, rfl, by intro t h; simp [C07_plPost, SegX.spell] at h; subst h; decide⟩
+example : (parseRecipe (α := Rat) C07_vEnvM ">> source: grandma\n\nUse @&&x{} now\n".toList).diags.toList =
+    [⟨.error, .parse, "duplicate-modifier", [⟨25, 27⟩]⟩] := by decide +kernel
+example : (parseRecipe (α := Rat) C07_vEnvM ">> source: grandma\n\nUse #@&&x{} now\n".toList).diags.toList =
+    [⟨.error, .parse, "duplicate-modifier", [⟨25, 28⟩]⟩, ⟨.error, .parse, "cookware-recipe-modifier", [⟨25, 26⟩]⟩] := by
+  decide +kernel
+def C07_vNameA : List Tok := [tk .word ['a'], tk .or ['|'], tk .word ['b'], tk .or ['|'], tk .word ['c']]
+example (T tpre tB tpost : List Tok) (hT : T = tpre ++ (tB ++ tpost))
+    (hsB : Spells tB (c07p_comp (tk .at ['@']) [] C07_vNameA (tk .openBrace ['{']) [] (tk .closeBrace ['}'])))
+    (hpost : Spells tpost (C07_plPost.flatMap SegX.spell)) (hrun : RunAt (baseOff T) T) :=
+  ((C07_planted_document_alias_errors (α := Rat) C07_vEnvA C07_plPre' C07_plPost (tk .at ['@']) [] C07_vNameA
+    (tk .openBrace ['{']) [] (tk .closeBrace ['}']) 1 (by intro t h; cases h) (by intro t h; cases h) rfl (by decide)
+    T tpre tB tpost hT hsB hpost hrun).1 ⟨tk .word ['a'], by decide, rfl, 'a', by simp [tk], by decide⟩).1
+    ⟨rfl, Or.inl ⟨rfl, rfl⟩, by decide, rfl, by decide, rfl,
+      by intro t h; simp [C07_plPost, SegX.spell] at h; subst h; decide⟩
+example : (parseRecipe (α := Rat) C07_vEnvA ">> source: grandma\n\nUse @a|b|c{} now\n".toList).diags.toList =
+    [⟨.error, .parse, "multiple-aliases:ingredient", [⟨26, 30⟩]⟩] := by decide +kernel
+example := ((C07_planted_document_empty_name_family (α := Rat) C07_coreEnv C07_plPre' C07_plPost (tk .at ['@']) []
+    (tk .openBrace ['{']) C07_xQ1 (tk .closeBrace ['}']) (Or.inl rfl) rfl).2 C07_zeroDenEvs
+    (fun _ q => q.quantity.val.unit = none ∧ q.unitSep = none) ⟨tk .int ['1'], by decide, rfl⟩
+    (C07_zero_denominator_reading toyCharSpec ⟨0⟩ _ _ _ rfl rfl rfl (by decide) (by decide))).1
+    ⟨rfl, Or.inl ⟨rfl, rfl⟩, by decide, rfl, by decide, rfl,
+      by intro t h; simp [C07_plPost, SegX.spell] at h; subst h; decide⟩
+example : (parseRecipe (α := Rat) C07_coreEnv ">> source: grandma\n\nUse @{1/0} now\n".toList).diags.toList =
+    [⟨.error, .parse, "empty-name:ingredient", [⟨25, 25⟩]⟩, ⟨.error, .parse, "division-by-zero", [⟨26, 29⟩]⟩] := by
+  decide +kernel
+
 end Cook
